@@ -141,9 +141,14 @@ func (sdbh *SemaDBHandlers) HandleListCollections(w http.ResponseWriter, r *http
 		log.Error().Err(err).Msg("ListCollections failed")
 		return
 	}
-	colItems := make([]ListCollectionItem, len(collections))
-	for i, col := range collections {
-		colItems[i] = ListCollectionItem{Id: col.Id, VectorSize: col.IndexSchema["vector"].VectorVamana.VectorSize, DistanceMetric: col.IndexSchema["vector"].VectorVamana.DistanceMetric}
+	colItems := make([]ListCollectionItem, 0, len(collections))
+	for _, col := range collections {
+		params := vectorIndexParams(col)
+		if params == nil {
+			// Not a v1 collection
+			continue
+		}
+		colItems = append(colItems, ListCollectionItem{Id: col.Id, VectorSize: params.VectorSize, DistanceMetric: params.DistanceMetric})
 	}
 	resp := ListCollectionsResponse{Collections: colItems}
 	utils.Encode(w, http.StatusOK, resp)
@@ -155,6 +160,15 @@ func (sdbh *SemaDBHandlers) HandleListCollections(w http.ResponseWriter, r *http
 type contextKey string
 
 const collectionContextKey contextKey = "collection"
+
+// The v1 API only knows collections with a single vamana index named "vector".
+// Collections created through a later API version may not have it, in which
+// case nil is returned.
+func vectorIndexParams(collection models.Collection) *models.IndexVectorVamanaParameters {
+	return collection.IndexSchema["vector"].VectorVamana
+}
+
+const errNotV1Collection = "collection has no vamana index named vector, it cannot be used with the v1 API"
 
 // Extracts collectionId from the URI and fetches the collection from the cluster.
 func (sdbh *SemaDBHandlers) CollectionURIMiddleware(next http.Handler) http.Handler {
@@ -204,6 +218,11 @@ type GetCollectionResponse struct {
 func (sdbh *SemaDBHandlers) HandleGetCollection(w http.ResponseWriter, r *http.Request) {
 	// ---------------------------
 	collection := r.Context().Value(collectionContextKey).(models.Collection)
+	params := vectorIndexParams(collection)
+	if params == nil {
+		utils.Encode(w, http.StatusBadRequest, map[string]string{"error": errNotV1Collection})
+		return
+	}
 	// ---------------------------
 	shards, err := sdbh.clusterNode.GetShardsInfo(collection)
 	if errors.Is(err, cluster.ErrShardUnavailable) {
@@ -221,8 +240,8 @@ func (sdbh *SemaDBHandlers) HandleGetCollection(w http.ResponseWriter, r *http.R
 	}
 	resp := GetCollectionResponse{
 		Id:             collection.Id,
-		VectorSize:     collection.IndexSchema["vector"].VectorVamana.VectorSize,
-		DistanceMetric: collection.IndexSchema["vector"].VectorVamana.DistanceMetric,
+		VectorSize:     params.VectorSize,
+		DistanceMetric: params.DistanceMetric,
 		Shards:         shardItems,
 	}
 	utils.Encode(w, http.StatusOK, resp)
@@ -299,12 +318,17 @@ func (sdbh *SemaDBHandlers) HandleInsertPoints(w http.ResponseWriter, r *http.Re
 	// ---------------------------
 	// Get corresponding collection
 	collection := r.Context().Value(collectionContextKey).(models.Collection)
+	params := vectorIndexParams(collection)
+	if params == nil {
+		utils.Encode(w, http.StatusBadRequest, map[string]string{"error": errNotV1Collection})
+		return
+	}
 	// ---------------------------
 	// Convert request points into internal points, doing checks along the way
 	points := make([]models.Point, len(req.Points))
 	for i, point := range req.Points {
-		if len(point.Vector) != int(collection.IndexSchema["vector"].VectorVamana.VectorSize) {
-			errMsg := fmt.Sprintf("invalid vector dimension, expected %d got %d for point at index %d", collection.IndexSchema["vector"].VectorVamana.VectorSize, len(point.Vector), i)
+		if len(point.Vector) != int(params.VectorSize) {
+			errMsg := fmt.Sprintf("invalid vector dimension, expected %d got %d for point at index %d", params.VectorSize, len(point.Vector), i)
 			utils.Encode(w, http.StatusBadRequest, map[string]string{"error": errMsg})
 			return
 		}
@@ -401,12 +425,17 @@ func (sdbh *SemaDBHandlers) HandleUpdatePoints(w http.ResponseWriter, r *http.Re
 	// ---------------------------
 	// Get corresponding collection
 	collection := r.Context().Value(collectionContextKey).(models.Collection)
+	params := vectorIndexParams(collection)
+	if params == nil {
+		utils.Encode(w, http.StatusBadRequest, map[string]string{"error": errNotV1Collection})
+		return
+	}
 	// ---------------------------
 	// Convert request points into internal points, doing checks along the way
 	points := make([]models.Point, len(req.Points))
 	for i, point := range req.Points {
-		if len(point.Vector) != int(collection.IndexSchema["vector"].VectorVamana.VectorSize) {
-			errMsg := fmt.Sprintf("invalid vector dimension, expected %d got %d for point at index %d", collection.IndexSchema["vector"].VectorVamana.VectorSize, len(point.Vector), i)
+		if len(point.Vector) != int(params.VectorSize) {
+			errMsg := fmt.Sprintf("invalid vector dimension, expected %d got %d for point at index %d", params.VectorSize, len(point.Vector), i)
 			utils.Encode(w, http.StatusBadRequest, map[string]string{"error": errMsg})
 			return
 		}
@@ -535,9 +564,14 @@ func (sdbh *SemaDBHandlers) HandleSearchPoints(w http.ResponseWriter, r *http.Re
 	// Get corresponding collection
 	collection := r.Context().Value(collectionContextKey).(models.Collection)
 	// ---------------------------
+	params := vectorIndexParams(collection)
+	if params == nil {
+		utils.Encode(w, http.StatusBadRequest, map[string]string{"error": errNotV1Collection})
+		return
+	}
 	// Check vector dimension
-	if len(req.Vector) != int(collection.IndexSchema["vector"].VectorVamana.VectorSize) {
-		errMsg := fmt.Sprintf("invalid vector dimension, expected %d got %d", collection.IndexSchema["vector"].VectorVamana.VectorSize, len(req.Vector))
+	if len(req.Vector) != int(params.VectorSize) {
+		errMsg := fmt.Sprintf("invalid vector dimension, expected %d got %d", params.VectorSize, len(req.Vector))
 		utils.Encode(w, http.StatusBadRequest, map[string]string{"error": errMsg})
 		return
 	}
